@@ -127,7 +127,7 @@ fn try_uri_from_str(value: &str) -> Result<URIReference<'static>, URIReferenceEr
 
 /// The expected runtime environment for the packaged buildpack.
 #[derive(Debug, Deserialize, Serialize, Clone)]
-#[serde(deny_unknown_fields)]
+#[serde(deny_unknown_fields, default)]
 pub struct Platform {
     /// The operating system type that the packaged buildpack will run on.
     /// Only linux or windows is supported. If omitted, linux will be the default.
